@@ -327,6 +327,7 @@ impl WorldB {
             scn: None,
             stream_first: false,
         };
+        w.nonce_probe();
         // optional warm-up (part of the recorded trace, emitted through gen): clients are created and a few clean rounds run,
         // so that most of the run happens on established sessions
         if cfg.get("warm") > 0 {
@@ -492,6 +493,50 @@ impl WorldB {
         };
         self.tokens.push(rec);
         self.tokens.len() - 1
+    }
+
+    /// C17 monitor, once per world on a scratch session of its own (side RNG stream, nothing of the run is touched): packets
+    /// sealed under one key at packet numbers on both sides of every length class use pairwise different keystreams.
+    fn nonce_probe(&mut self) {
+        let mut side = Rng::new(self.cfg.get("sutseed") ^ 0x17_0B_E5);
+        renetcode::verif_rng::install(Some(Box::new(move |buf: &mut [u8]| side.fill(buf))));
+        let key = [7u8; 32];
+        let addr = addr_v4(10, 77, 0, 1, 7000);
+        let caddr = addr_v4(10, 77, 0, 2, 7001);
+        let now = Duration::from_secs(T0_SECS);
+        let mut server = NetcodeServer::new(ServerConfig { current_time: now, max_clients: 1, protocol_id: 17, public_addresses: vec![addr], authentication: ServerAuthentication::Secure { private_key: key } });
+        let token = ConnectToken::generate(now, 17, 300, 1, 15, vec![addr], None, &key).expect("probe token");
+        let mut client = NetcodeClient::new(now, ClientAuthentication::Secure { connect_token: token }).expect("probe client");
+        for _ in 0..4 {
+            let out = client.update(Duration::from_millis(300)).map(|(b, _)| b.to_vec());
+            if let Some(mut dg) = out {
+                let reply = match server.process_packet(caddr, &mut dg) {
+                    renetcode::ServerResult::PacketToSend { payload, .. } => Some(payload.to_vec()),
+                    renetcode::ServerResult::ClientConnected { payload, .. } => Some(payload.to_vec()),
+                    _ => None,
+                };
+                if let Some(mut r) = reply {
+                    let _ = client.process_packet(&mut r);
+                }
+            }
+        }
+        if client.is_connected() {
+            let numbers: [u64; 14] = [1, 2, 3, 255, 256, 257, 512, 768, 65_535, 65_536, 1 << 24, 1 << 32, 1 << 40, 1 << 56];
+            let mut seen: Vec<([u8; 8], u64)> = Vec::new();
+            for n in numbers {
+                client.verif_set_sequence(n);
+                let Ok((_, dg)) = client.generate_payload_packet(&[0u8; 16]) else { continue };
+                let len = (dg[0] >> 4) as usize;
+                let mut ks = [0u8; 8];
+                ks.copy_from_slice(&dg[1 + len..1 + len + 8]);
+                if let Some((_, prev)) = seen.iter().find(|(k, _)| *k == ks) {
+                    self.deferred.push(("C17".into(), "keystream-reused-under-one-key".into(), "probe".into(), format!("packet numbers {} and {} are sealed with the same keystream", prev, n)));
+                }
+                seen.push((ks, n));
+            }
+        }
+        let shared = self.sut_rng.clone();
+        renetcode::verif_rng::install(Some(Box::new(move |buf: &mut [u8]| shared.borrow_mut().fill(buf))));
     }
 
     pub fn token_valid_now(&self, tid: usize) -> bool {
